@@ -16,8 +16,9 @@ use std::io::Write;
 
 const NONCANON: i64 = 4611686018427387904;
 const PREFIX: &str = "data:application/octet-stream;base64,";
-const DID1: &str = "did:example:issuer";
-const DIDS: [&str; 3] = ["", DID1, "did:example:other"];
+/// an IOTA DID, so that the same histories also run on an IotaDocument (the wrappers in identity_iota_core)
+const DID1: &str = "did:iota:0x1111111111111111111111111111111111111111111111111111111111111111";
+const DIDS: [&str; 3] = ["", DID1, "did:iota:0x2222222222222222222222222222222222222222222222222222222222222222"];
 // ---- the harness's own codec (roaring + zlib), used to record the oracle tables and to read members out of an endpoint ----
 fn rser(set: &[u32]) -> Vec<u8> { let b: RoaringBitmap = set.iter().copied().collect(); let mut o = vec![]; b.serialize_into(&mut o).unwrap(); o }
 fn zcomp(data: &[u8]) -> Vec<u8> { let mut e = ZlibEncoder::new(Vec::new(), Compression::default()); e.write_all(data).unwrap(); e.finish().unwrap() }
@@ -100,6 +101,7 @@ pub fn exec(case: &[i64]) -> Outcome {
       for _ in 0..nops { let op = take1(&mut v).unwrap(); let qd = { let f = take1(&mut v).unwrap(); let x = take1(&mut v).unwrap(); if f != 0 { Some(x) } else { None } }; let qf = { let f = take1(&mut v).unwrap(); let x = take1(&mut v).unwrap(); if f != 0 { Some(x) } else { None } }; ops.push((op, qd, qf, take_lp(&mut v).unwrap().iter().map(|x| *x as u32).collect::<Vec<u32>>())); }
       let sv_json: Vec<Value> = svcs.iter().zip(tcodes.iter()).map(|((id, _t, s), tc)| match s { Some(s) => service_json(id, *tc, json!(format!("{PREFIX}{}", BaseEncoding::encode(&zcomp(&rser(s)), Base::Base64Url)))), None => service_json(id, *tc, json!("https://plain.example/")) }).collect();
       let mut doc = match CoreDocument::from_json_value(json!({"id": DID1, "service": sv_json})) { Ok(d) => d, Err(_) => return Outcome::new(vec![-7]).class("unbuildable").trivial().fail("case document does not build") };
+      let mut shadow: Option<identity_iota_core::IotaDocument> = identity_iota_core::IotaDocument::from_json_value(json!({"doc": {"id": DID1, "service": sv_json}, "meta": {}})).ok();
       let mut expect: Vec<Option<Vec<u32>>> = svcs.iter().map(|(_, t, s)| if *t { s.clone() } else { None }).collect();
       let mut why: Option<String> = None; let mut obs = vec![];
       let observe = |doc: &CoreDocument, obs: &mut Vec<i64>, expect: &Vec<Option<Vec<u32>>>, why: &mut Option<String>| {
@@ -118,6 +120,11 @@ pub fn exec(case: &[i64]) -> Outcome {
         let target = svcs.iter().position(|(id, _, _)| { let (d, f) = id.split_once('#').unwrap(); qd.map_or(true, |x| DIDS[x as usize] == d) && qf.map_or(false, |x| format!("f{x}") == f) });
         let before = doc.clone();
         let r = if *op == 0 { doc.revoke_credentials(q.as_str(), idxs) } else { doc.unrevoke_credentials(q.as_str(), idxs) };
+        // the IotaDocument wrappers (revoke_credentials / unrevoke_credentials / resolve_revocation_bitmap) must track the core document
+        if let Some(sh) = shadow.as_mut() { let r2 = if *op == 0 { sh.revoke_credentials(q.as_str(), idxs) } else { sh.unrevoke_credentials(q.as_str(), idxs) };
+          if r.is_ok() != r2.is_ok() { why.get_or_insert("IotaDocument::revoke / unrevoke_credentials answers differently from CoreDocument's".into()); }
+          if sh.core_document() != &doc { why.get_or_insert("after the same history the IotaDocument's core document differs from the CoreDocument".into()); }
+ }
         let should = target.map_or(false, |t| expect[t].is_some());
         match r {
           Ok(()) => { obs.push(0); if !should { why.get_or_insert("an operation on a missing or invalid bitmap service succeeded".into()); }
